@@ -154,6 +154,10 @@ void PositiveVisitor::bvisit(const Add &x)
         can_be_false = false;
     } else if (coef->is_negative()) {
         can_be_true = false;
+    } else if (not coef->is_zero()) {
+        // complex (or otherwise unsigned) coefficient
+        is_positive_ = tribool::indeterminate;
+        return;
     }
     NegativeVisitor neg_visitor(assumptions_);
     for (const auto &p : dict) {
@@ -239,7 +243,8 @@ void NonPositiveVisitor::bvisit(const Symbol &x)
 
 void NonPositiveVisitor::bvisit(const Number &x)
 {
-    if (is_a_Complex(x)) {
+    if (is_a_Complex(x) or is_a<NaN>(x)
+        or (is_a<Infty>(x) and not x.is_positive() and not x.is_negative())) {
         is_nonpositive_ = tribool::trifalse;
     } else if (bool(x.is_positive())) {
         is_nonpositive_ = tribool::trifalse;
@@ -363,7 +368,8 @@ void NonNegativeVisitor::bvisit(const Symbol &x)
 
 void NonNegativeVisitor::bvisit(const Number &x)
 {
-    if (is_a_Complex(x)) {
+    if (is_a_Complex(x) or is_a<NaN>(x)
+        or (is_a<Infty>(x) and not x.is_positive() and not x.is_negative())) {
         is_nonnegative_ = tribool::trifalse;
     } else if (bool(x.is_negative())) {
         is_nonnegative_ = tribool::trifalse;
@@ -489,8 +495,13 @@ void RealVisitor::check_power(const RCP<const Basic> &base,
     base->accept(*this);
     if (is_true(is_real_)) {
         if (is_true(is_integer(*exp, assumptions_))) {
-            // base is real and exp is integer => true
-            is_real_ = tribool::tritrue;
+            // base is real and exp is integer => true, unless 0**negative
+            if (is_true(is_nonnegative(*exp, assumptions_))
+                or is_true(is_nonzero(*base, assumptions_))) {
+                is_real_ = tribool::tritrue;
+            } else {
+                is_real_ = tribool::indeterminate;
+            }
         } else if (is_true(is_nonnegative(*base, assumptions_))) {
             // base >= 0 and exp is real => true
             exp->accept(*this);
